@@ -129,9 +129,7 @@ impl Model {
                     true
                 }
             }
-            // (a matrix whose dense tail has been dropped by resize is outside the domain: the library always
-            //  keeps a tail of P >= 10 columns; freezing into an empty tail hits an edge panic, see DESIGN.md section 6)
-            Op::Freeze(c) => self.indexed && self.nd >= 1 && fd >= 1 && c == fd - 1,
+            Op::Freeze(c) => self.indexed && fd >= 1 && c == fd - 1,
             Op::Enable => self.w <= self.h && self.any_sparse_one() && !self.any_sparse_either(),
             Op::Disable => true,
             Op::Resize(nh, nw) => !self.indexed && nh >= 1 && nh <= self.h && nw >= 1 && nw <= self.w && (nw == self.w || self.w - nw >= self.nd) && !(nw == self.w && self.nd == 0 && false),
@@ -369,6 +367,40 @@ fn q_sub_row(d: &DenseBinaryMatrix, s: &SparseBinaryMatrix, m: &Model, row: usiz
     Ok(true)
 }
 
+/// dense only: count_ones / get_row_iter on an arbitrary column range
+fn q_dense_range(d: &DenseBinaryMatrix, m: &Model, row: usize, a: usize, b: usize) -> Result<bool, String> {
+    if a > b || b > m.w || m.cells[row][a..b].contains(&E) {
+        return Ok(false);
+    }
+    let want: Vec<usize> = (a..b).filter(|&c| m.cells[row][c] == O).collect();
+    let gc = d.count_ones(row, a, b);
+    if gc != want.len() {
+        return Err(format!("dense count_ones({}, {}, {}) = {}, plain bit array {}", row, a, b, gc, want.len()));
+    }
+    let got: Vec<usize> = d.get_row_iter(row, a, b).filter(|x| x.1 != Octet::zero()).map(|x| x.0).collect();
+    if got != want {
+        return Err(format!("dense get_row_iter({}, {}, {}): ones {:?}, plain bit array {:?}", row, a, b, got, want));
+    }
+    Ok(true)
+}
+
+/// dense only: query_non_zero_columns / get_sub_row_as_octets from an arbitrary start column
+fn q_dense_nonzero(d: &DenseBinaryMatrix, m: &Model, row: usize, start: usize) -> Result<bool, String> {
+    if start > m.w || m.cells[row][start..].contains(&E) {
+        return Ok(false);
+    }
+    let want: Vec<usize> = (start..m.w).filter(|&c| m.cells[row][c] == O).collect();
+    let got = d.query_non_zero_columns(row, start);
+    if got != want {
+        return Err(format!("dense query_non_zero_columns({}, {}): {:?}, plain bit array {:?}", row, start, got, want));
+    }
+    let sub = unpack(&d.get_sub_row_as_octets(row, start));
+    if sub != m.cells[row][start..] {
+        return Err(format!("dense get_sub_row_as_octets({}, {}): {:?}, plain bit array {:?}", row, start, sub, &m.cells[row][start..]));
+    }
+    Ok(true)
+}
+
 // ------------------------------------------------------------------------------------------------
 // (1) bounded exploration of admissible operation sequences
 // ------------------------------------------------------------------------------------------------
@@ -427,9 +459,6 @@ impl Triple {
             let mut n = 0;
             compare_cells(d, s, m)?;
             n += 1;
-            if m.nd == 0 {
-                return Ok(n);
-            }
             let fd = m.first_dense();
             let rows = self.boundary_rows();
             let mut cols: Vec<usize> = self.boundary_cols().into_iter().filter(|&c| c <= fd).collect();
@@ -461,6 +490,27 @@ impl Triple {
                             n += 1;
                         }
                     }
+                }
+            }
+            // extension: the dense implementation has no V-section restriction, so it is additionally held to the
+            // plain-array answers on ranges reaching into / starting inside the dense tail
+            let all_cols = self.boundary_cols();
+            for &row in &rows {
+                for (x, &a) in all_cols.iter().enumerate() {
+                    if q_dense_nonzero(d, m, row, a)? {
+                        n += 1;
+                    }
+                    for &b in &all_cols[x..] {
+                        if b > fd && q_dense_range(d, m, row, a, b)? {
+                            n += 1;
+                        }
+                    }
+                    if a > fd && q_dense_range(d, m, row, a, m.w)? {
+                        n += 1;
+                    }
+                }
+                if q_dense_nonzero(d, m, row, m.w)? {
+                    n += 1;
                 }
             }
             Ok(n)
@@ -979,9 +1029,20 @@ fn enumerate(ctx: &Ctx, st: &Stats) {
     if !checked {
         let depth = if ctx.quick() { 3 } else { 4 };
         let mut seeds: Vec<(usize, usize, usize, &'static str, u8, usize)> = vec![];
-        let shapes: Vec<(usize, usize)> = if ctx.quick() { vec![(6, 6), (70, 66), (70, 70)] } else { vec![(6, 6), (8, 8), (70, 66), (70, 70), (130, 129)] };
+        let shapes: Vec<(usize, usize)> = if ctx.quick() { vec![(6, 6), (70, 66), (70, 70), (136, 134)] } else { vec![(6, 6), (8, 8), (70, 66), (70, 70), (130, 129), (136, 134), (200, 198)] };
         for &(h, w) in &shapes {
-            let tails: Vec<usize> = if w < 10 { vec![1, 2] } else if ctx.quick() { vec![1, 63, 64] } else { vec![1, 2, 62, 63, 64, 65] };
+            // dense tails just below / at / above every word boundary the width allows (64, 128, 192), and an empty tail
+            let tails: Vec<usize> = if w < 10 {
+                vec![0, 1, 2]
+            } else if w > 190 {
+                vec![127, 128, 190, 191, 192]
+            } else if w > 130 {
+                if ctx.quick() { vec![127, 128] } else { vec![0, 63, 126, 127, 128, 129] }
+            } else if ctx.quick() {
+                vec![1, 63, 64]
+            } else {
+                vec![0, 1, 2, 62, 63, 64, 65]
+            };
             for &nd in &tails {
                 if nd + 4 > w {
                     continue;
@@ -994,6 +1055,9 @@ fn enumerate(ctx: &Ctx, st: &Stats) {
                             continue;
                         }
                         let d = if h > 100 { depth - 1 } else { depth };
+                        if nd == 0 && prep == 2 {
+                            continue; // the prepared start needs a column swap target inside V and three freezes: fine, but keep the empty-tail seeds simple
+                        }
                         seeds.push((h, w, nd, c, prep, d));
                     }
                 }
